@@ -29,6 +29,12 @@ def version_fields():
         if L.structs.get('Version') != ['major', 'minor', 'patch', 'pre', 'build']:
             raise Unsupported(f'semver::Version layout changed: {L.structs.get("Version")}')
         _layout = L.structs['Version']
+        global _cmp_layout
+        L2 = Layouts()
+        for v in vers:
+            for p in glob.glob(os.path.expanduser(f'~/.cargo/registry/src/*/semver-{v}/src/lib.rs')):
+                L2.add_source(p, only={'Comparator', 'Op'})
+        _cmp_layout = (L2.structs.get('Comparator'), L2.enums.get('Op'))
     return _layout
 
 
@@ -105,6 +111,38 @@ def m_ver_ord(ex, args, callee):
     return ex.mk_enum('Ordering', 'Greater')
 
 
+_cmp_layout = None
+
+
+def register_comparator(ex):
+    """make `semver::Comparator { .. }` aggregates and `Op::X` constants constructible (layout read from the semver crate)"""
+    version_fields()
+    fields, ops = _cmp_layout
+    if fields != ['op', 'major', 'minor', 'patch', 'pre'] or not ops or ops[:5] != ['Exact', 'Greater', 'GreaterEq', 'Less', 'LessEq']:
+        raise Unsupported(f'semver::Comparator / Op layout changed: {_cmp_layout}')
+    ex.L.structs.setdefault('Comparator', fields)
+    ex.L.enums.setdefault('Op', ops)
+
+
+def m_comparator_matches(ex, args, callee):
+    """semver::Comparator::matches (src/eval.rs, matches_comparator): the ordering test on (major, minor, patch, pre) for the comparison
+    operators AND Cargo's pre-release rule: a version with a pre-release tag only matches a comparator with the same major.minor.patch
+    that has a pre-release tag itself"""
+    register_comparator(ex)
+    cmp_, ver = dv(args[0]), dv(args[1])
+    if not (isinstance(cmp_, Adt) and cmp_.ty == 'Comparator'): raise Unsupported(f'Comparator::matches on {cmp_!r}')
+    op, major, minor, patch, pre = [dv(c.v) for c in cmp_.fields[None]]
+    opn = ex.variant_name(op) if isinstance(op, Adt) else (op.payload.split('::')[-1] if isinstance(op, Opaque) else None)
+    if opn not in ('Exact', 'Greater', 'GreaterEq', 'Less', 'LessEq') or minor.discr != 1 or patch.discr != 1:
+        raise Unsupported(f'Comparator::matches with op {opn} / partial version')
+    c = [major, ex.payload(minor), ex.payload(patch), pre]
+    v = comps(ver)[:4]
+    exact, less, greater = lex_eq(v, c), lex_lt(v, c), lex_lt(c, v)
+    impl = {'Exact': exact, 'Greater': greater, 'GreaterEq': zor(exact, greater), 'Less': less, 'LessEq': zor(exact, less)}[opn]
+    compatible = zand(v[0] == c[0], v[1] == c[1], v[2] == c[2], c[3] != 0)
+    return zand(impl, zor(v[3] == 0, compatible))
+
+
 def m_ver_new(ex, args, callee):
     """Version::new(major, minor, patch): a release without build metadata"""
     version_fields()
@@ -113,6 +151,8 @@ def m_ver_new(ex, args, callee):
 
 MODELS = [
     (r'^(semver::)?Version::new$', m_ver_new),
+    (r'^(semver::)?Comparator::matches$', m_comparator_matches),
+    (r'<(semver::)?Prerelease as Clone>::clone$|<(semver::)?BuildMetadata as Clone>::clone$', lambda ex, a, c: dv(a[0])),
     (r'semver::Version as PartialOrd>::lt$', m_ver_cmp('lt')), (r'semver::Version as PartialOrd>::le$', m_ver_cmp('le')),
     (r'semver::Version as PartialOrd>::gt$', m_ver_cmp('gt')), (r'semver::Version as PartialOrd>::ge$', m_ver_cmp('ge')),
     (r'semver::Version as PartialEq>::eq$', m_ver_cmp('eq')), (r'semver::Version as PartialEq>::ne$', m_ver_cmp('ne')),
